@@ -271,7 +271,7 @@ def bits_to_int(bits):
 SIZES = [0, 40, 700, 5000, 70000, 1 << 20]
 
 
-def content(status, size, salt):
+def content(status, size, salt, langerr=False):
     """Concrete bytes for a status class; size is a target, not exact."""
     if status == "differs":
         if size == 0:
@@ -293,7 +293,11 @@ def content(status, size, salt):
         out, i, n = ["#!/bin/sh\n"], 0, 10
         while n < size:
             b = "echo   ok %d\n" % i; out.append(b); n += len(b); i += 1
-        out.append("if true;then\n  echo 'unterminated %d\n" % salt)
+        if langerr:
+            # valid bash, but an error of the language chosen on the command line (-ln=posix): parses up to the array
+            out.append("arr=(a b %d)\necho   two\n" % salt)
+        else:
+            out.append("if true;then\n  echo 'unterminated %d\n" % salt)
         return "".join(out).encode()
     raise ValueError(status)
 
@@ -313,9 +317,13 @@ class Case:
             ent = {"path": p, "kind": f["kind"], "mode": bits_to_int(f["mode"]), "status": f["status"],
                    "arg": f["arg"], "to": f["to"]}
             if f["kind"] == "reg":
-                ent["data"] = content(f["status"], sizes[k % len(sizes)], idx * 7 + k)
+                ent["data"] = content(f["status"], sizes[k % len(sizes)], idx * 7 + k, langerr=(idx % 2 == 0))
             self.files[p] = ent
         self.wflags = ["-l", "-w"] if idx % 3 == 1 else ["-w"]      # -l -w must write the same way
+        if idx % 2 == 0:
+            # every second scenario chooses the language explicitly; its "parseerr" files are language errors
+            # (a bash array under -ln=posix) rather than syntax errors: they must not be written either
+            self.wflags = ["-ln=posix"] + self.wflags
         self.fmt = {}       # path -> formatted bytes (regular files that format)
         self.args = [p for p in sorted(self.files) if self.files[p]["arg"] == "explicit"]
         if any(f["arg"] == "walked" for f in self.files.values()):
